@@ -49,6 +49,29 @@ def _calls_in_loop(repo: Repo, f: Def, cfg: CFG, loop_id: int, *quals: str) -> l
     return [c for c in repo.calls_to(f, *quals) if cfg.has(c) and cfg.in_loop(cfg.node_of(c), loop_id)]
 
 
+def _is_drain_helper(repo: Repo, h: Def) -> bool:
+    """h contains a loop with a task-end dispatch in it and starts no operation itself"""
+    hc = cfg_of(h)
+    sites = [c for c in h.own_nodes() if isinstance(c, ast.Call) and hc.has(c) and (TASK_END in repo.callee_quals(c, h) or (isinstance(c.func, ast.Attribute) and c.func.attr == "on_task_end"))]
+    return bool(sites) and all(hc.nodes[hc.node_of(c)].loops for c in sites) and not repo.calls_to(h, OP_START) and not repo.calls_to(h, OP_END)
+
+
+def _check_drain_helper(ctx: Ctx, repo: Repo, h: Def, kind: str) -> None:
+    hc = cfg_of(h)
+    sites = [c for c in h.own_nodes() if isinstance(c, ast.Call) and hc.has(c) and (TASK_END in repo.callee_quals(c, h) or (isinstance(c.func, ast.Attribute) and c.func.attr == "on_task_end"))]
+    ok = len(sites) == 1
+    extra = []
+    if ok:
+        K = hc.nodes[hc.node_of(sites[0])].loops[-1]
+        for t, pol, b in hc.branch_conditions(hc.node_of(sites[0])):
+            if hc.in_loop(b, K):
+                extra.append(("" if pol else "not ") + unparse(t, 40))
+        # nothing leaves the helper before the stream is exhausted
+        early = [n for n in hc.nodes if n.kind == "stmt" and isinstance(n.stmt, (ast.Break, ast.Return)) and hc.in_loop(n.id, K)]
+        ok = not extra and not early
+    ctx.ob(h, sites[0] if sites else h.node, ok, f"[{kind}] the stream-draining helper {h.name} dispatches exactly one task-end per result and returns only when the stream is exhausted" + ("" if ok else f" — {extra or 'early exit / several dispatch sites'}"), sel=f"{kind}:drain-helper")
+
+
 def _task_end_sites(repo: Repo, f: Def, cfg: CFG, loop_id: int) -> list[ast.Call]:
     out = _calls_in_loop(repo, f, cfg, loop_id, TASK_END)
     for n in f.own_nodes():
@@ -96,6 +119,24 @@ def events(ctx: Ctx) -> None:
             D = _task_end_sites(repo, f, cfg, L)
             all_D += D
             ks = {_consume_loop(cfg, d_, f) for d_ in D}
+            if not D:
+                # the consuming loop may have been extracted into a private coroutine/function
+                # that drains one stream and dispatches one task-end per result: the call of
+                # that helper then stands for the consuming loop
+                drains = []
+                for c in f.own_nodes():
+                    if isinstance(c, ast.Call) and cfg.has(c) and cfg.in_loop(cfg.node_of(c), L):
+                        for t_ in repo.resolve_call(c, f, f.module):
+                            if t_.kind == "def" and t_.ref.is_func and t_.ref.module is f.module and _is_drain_helper(repo, t_.ref):
+                                drains.append((c, t_.ref))
+                if len(drains) == 1:
+                    c, h = drains[0]
+                    _check_drain_helper(ctx, repo, h, kind)
+                    D = [c]
+                    all_D += D
+                    ks = {cfg.node_of(c)}
+                elif drains:
+                    ctx.need(False, f"{f.qual}: several stream-draining helpers are called in one operation loop; not followed")
             ok = len(D) == 1 and None not in ks and L not in ks
             ctx.ob(f, D[0] if D else ln.stmt, ok, f"[{kind}] exactly one task-end dispatch per consumed result, inside the consuming loop (found {len(D)})", sel=f"{kind}:task-end")
             if not ok:
@@ -133,7 +174,7 @@ def events(ctx: Ctx) -> None:
                 en = cfg.node_of(e)
                 top = _top_in(cfg, en, L)
                 # on normal paths, after the consuming loop ends the end notification follows
-                exits = cfg.edge_targets(K, "exit")
+                exits = cfg.edge_targets(K, "exit") if isinstance(cfg.nodes[K].stmt, (ast.For, ast.AsyncFor, ast.While)) else [s_ for s_, lab_ in cfg.nodes[K].succ if lab_ not in ("exc", "raise", "reraise", "assert-fail")]
                 ok = not cfg.in_loop(en, K) and top != K and bool(exits) and all(
                     cfg.all_paths_pass(x, L, {top}) for x in exits
                 ) and cfg.dominates(K, top)
@@ -233,6 +274,14 @@ def _names_op(fl, cfg: CFG, call: ast.Call, loop_node, f: Def) -> bool:
             if not defs or not all(cfg.in_loop(d_.node, loop_node.id) for d_ in defs):
                 return False
             appended = False
+            # names = [name for name, _ in gen]  (no filter)
+            for d_ in defs:
+                v_ = d_.value
+                if isinstance(v_, ast.ListComp) and len(v_.generators) == 1 and not v_.generators[0].ifs and isinstance(v_.generators[0].iter, ast.Name) and v_.generators[0].iter.id in loop_names and isinstance(v_.elt, ast.Name):
+                    tg_ = v_.generators[0].target
+                    first = tg_.elts[0] if isinstance(tg_, ast.Tuple) and tg_.elts else tg_
+                    if isinstance(first, ast.Name) and first.id == v_.elt.id:
+                        appended = True
             for n in f.own_nodes():
                 if isinstance(n, ast.Call) and isinstance(n.func, ast.Attribute) and n.func.attr == "append" and isinstance(n.func.value, ast.Name) and n.func.value.id == lst:
                     nid = cfg.node_of(n)
@@ -292,19 +341,34 @@ def stats(ctx: Ctx) -> None:
     repo = ctx.repo
     f = repo.get(f"{A.FP}._calculate_stats")
     cfg = cfg_of(f)
-    accs = [n for n in f.own_nodes() if isinstance(n, ast.AugAssign) and is_self_attr(n.target) and mentions_attr(n.value, "num_tasks")]
+    def _accs(d):
+        return [n for n in d.own_nodes() if isinstance(n, ast.AugAssign) and is_self_attr(n.target) and mentions_attr(n.value, "num_tasks")]
+
+    # the accumulation may live in a private method that _calculate_stats calls once per node
+    sites = [(f, a, None) for a in _accs(f)]
+    if not sites:
+        for c in f.own_nodes():
+            if isinstance(c, ast.Call) and is_self_attr(c.func):
+                for t_ in repo.resolve_call(c, f, f.module):
+                    if t_.kind == "def" and t_.ref.is_func and t_.ref.cls is f.cls and t_.ref is not f:
+                        sites += [(t_.ref, a, c) for a in _accs(t_.ref)]
+    accs = [a for _, a, _ in sites]
     ctx.ob(f, accs[0] if accs else f.node, len(accs) == 1, f"one accumulation of `.num_tasks` into the plan total (found {len(accs)})", sel="stats:acc")
-    for a in accs:
+    for holder, a, via in sites:
         ok = isinstance(a.op, ast.Add) and isinstance(a.value, ast.Attribute) and a.value.attr == "num_tasks"
-        ctx.ob(f, a, ok, "the total is accumulated with `+= <op>.num_tasks`", sel="stats:plus")
-        nid = cfg.node_of(a)
+        ctx.ob(holder, a, ok, "the total is accumulated with `+= <op>.num_tasks`", sel="stats:plus")
+        hcfg = cfg_of(holder)
+        nid = cfg.node_of(via) if via is not None else cfg.node_of(a)
         extra = []
-        for t, pol in facts_at(cfg, nid):
+        all_facts = list(facts_at(cfg, nid)) + (list(facts_at(hcfg, hcfg.node_of(a))) if via is not None else [])
+        for t, pol in all_facts:
             s = unparse(t)
             if pol and isinstance(t, ast.Compare) and isinstance(t.ops[0], ast.Eq) and any(isinstance(c, ast.Constant) and c.value == "op" for c in [t.left] + t.comparators):
                 continue
             if pol and isinstance(t, ast.Compare) and isinstance(t.ops[0], ast.IsNot) and isinstance(t.comparators[0], ast.Constant) and t.comparators[0].value is None:
                 continue
+            if not pol and isinstance(t, ast.Compare) and isinstance(t.ops[0], ast.Is) and isinstance(t.comparators[0], ast.Constant) and t.comparators[0].value is None:
+                continue  # guard clause `if primitive_op is None: return`
             if pol and isinstance(t, ast.Compare) and isinstance(t.left, ast.Constant) and t.left.value == "primitive_op" and isinstance(t.ops[0], ast.In):
                 continue
             extra.append(("" if pol else "not ") + s)
@@ -549,6 +613,19 @@ def barrier(ctx: Ctx) -> None:
             X = ln.id
             D = _task_end_sites(repo, f, cfg, X)
             ks = {_consume_loop(cfg, d_, f) for d_ in D} - {None, X}
+            helper_call = None
+            if not D:
+                drains = []
+                for c in f.own_nodes():
+                    if isinstance(c, ast.Call) and cfg.has(c) and cfg.in_loop(cfg.node_of(c), X):
+                        for t_ in repo.resolve_call(c, f, f.module):
+                            if t_.kind == "def" and t_.ref.is_func and t_.ref.module is f.module and _is_drain_helper(repo, t_.ref):
+                                drains.append(c)
+                if len(drains) == 1:
+                    helper_call = drains[0]
+                    ks = {cfg.node_of(helper_call)}
+                elif drains:
+                    ctx.need(False, f"{f.qual}: several stream-draining helpers in one operation loop; not followed")
             if len(ks) != 1:
                 ctx.ob(f, ln.stmt, False, f"[{kind}] cannot identify the loop that consumes task results inside the loop over operations", sel=f"{kind}:consume-loop")
                 continue
@@ -556,7 +633,8 @@ def barrier(ctx: Ctx) -> None:
             kst = cfg.nodes[K].stmt
             src_calls, sv = _stream_values(repo, f, cfg, fl, X)
             if src_calls:
-                ok = any(isinstance(n, ast.Name) and n.id in sv for n in ast.walk(kst.iter))
+                consumed = kst.iter if helper_call is None else ast.Tuple(elts=list(helper_call.args), ctx=ast.Load())
+                ok = any(isinstance(n, ast.Name) and n.id in sv for n in ast.walk(consumed)) or (helper_call is not None and any(any(cc is sc for sc in src_calls) for a in helper_call.args for cc in ast.walk(a)))
                 ctx.ob(f, kst, ok, f"[{kind}] the result loop consumes the stream(s) created in this iteration", sel=f"{kind}:consumes-own-stream")
                 # all definitions of stream-carrying names that reach their uses are inside X
                 escaped = []
@@ -583,6 +661,7 @@ def barrier(ctx: Ctx) -> None:
             else:
                 # sequential executor: iterate the pipeline's mappable directly and call the task
                 # function synchronously
+                ctx.need(helper_call is None, f"{f.qual}: sequential executor restructured around a helper; not followed")
                 it = kst.iter
                 ok = isinstance(it, ast.Attribute) and it.attr == "mappable"
                 ctx.ob(f, kst, ok, f"[{kind}] tasks are enumerated from the operation's own mappable", sel=f"{kind}:mappable")
@@ -616,8 +695,20 @@ def barrier_src(ctx: Ctx) -> None:
             it = n.stmt.iter
             t = fl.taint(it, n.id)
             if "dag" in t and not n.loops:
-                qs = repo.callee_quals(it, f) if isinstance(it, ast.Call) else set()
-                ok = bool(qs & {VISIT_NODES, VISIT_GENS}) and it.args and isinstance(it.args[0], ast.Name) and it.args[0].id == "dag"
+                def from_visit(e, at, depth=3):
+                    """e is visit_*(dag), a comprehension wrapping every element of one, or a
+                    variable all of whose definitions are"""
+                    if isinstance(e, ast.Call):
+                        q_ = repo.callee_quals(e, f)
+                        return bool(q_ & {VISIT_NODES, VISIT_GENS}) and bool(e.args) and isinstance(e.args[0], ast.Name) and e.args[0].id == "dag"
+                    if isinstance(e, (ast.GeneratorExp, ast.ListComp)) and len(e.generators) == 1 and not e.generators[0].ifs:
+                        return from_visit(e.generators[0].iter, at, depth)
+                    if isinstance(e, ast.Name) and depth > 0:
+                        ds = fl.rdefs(e.id, at)
+                        return bool(ds) and all(d_.kind == "assign" and d_.value is not None and from_visit(d_.value, d_.node, depth - 1) for d_ in ds)
+                    return False
+
+                ok = from_visit(it, n.id)
                 ctx.ob(f, n.stmt, ok, "operations are taken from visit_nodes(dag) / visit_node_generations(dag)" + ("" if ok else f" — iterates `{unparse(it, 40)}` instead (no topological order / no barrier)"), sel=f"src:{unparse(n.stmt.target, 20)}")
     for q, fn in ((VISIT_NODES, "networkx.topological_sort"), (VISIT_GENS, "networkx.topological_generations")):
         v = repo.get(q)
@@ -687,6 +778,11 @@ def barrier_src(ctx: Ctx) -> None:
                 if pol and isinstance(t, ast.Compare) and isinstance(t.ops[0], ast.Is) and isinstance(t.comparators[0], ast.Constant) and t.comparators[0].value is None and isinstance(t.left, ast.Name):
                     if any(s.value is not None and "pipeline" in subscript_keys(s.value) for s in fl.rdefs(t.left.id, r.id)):
                         ok = True
+                # the lookup written inline: `<node>.get("pipeline") is None` / `"pipeline" not in <node>`
+                if pol and isinstance(t, ast.Compare) and isinstance(t.ops[0], ast.Is) and isinstance(t.comparators[0], ast.Constant) and t.comparators[0].value is None and not isinstance(t.left, ast.Name) and "pipeline" in subscript_keys(t.left):
+                    ok = True
+                if isinstance(t, ast.Compare) and isinstance(t.ops[0], (ast.In, ast.NotIn)) and isinstance(t.left, ast.Constant) and t.left.value == "pipeline" and (isinstance(t.ops[0], ast.NotIn) == pol):
+                    ok = True
         elif isinstance(v, ast.Call) and isinstance(v.func, ast.Attribute) and v.func.attr == "get" and v.args and isinstance(v.args[0], ast.Constant) and v.args[0].value == "computed":
             dv = v.args[1] if len(v.args) > 1 else ast.Constant(None)
             ok = isinstance(dv, ast.Constant) and not dv.value
